@@ -195,6 +195,11 @@ def run_case(case):
         for i in pick:
             agree("single(3,)", lambda i=i: obj.is_inside(W[i].copy()), got[i : i + 1])
         agree("reversed", lambda: obj.is_inside(W[::-1].copy()), got[::-1], clear[::-1])
+        # one large batch (an implementation that works block-wise must still answer element by element)
+        if len(W) and (len(W) + len(case.get("poly", [])) + int(W[0, 0] * 8)) % 4 == 0:
+            reps_big = (6007 + len(W) - 1) // len(W)
+            big = np.vstack([W] * reps_big)[:6007]
+            agree("batch-6007", lambda: obj.is_inside(big.copy()), np.concatenate([got] * reps_big)[:6007], np.concatenate([clear] * reps_big)[:6007])
         if planar_input and cls is not None:
             # z = 0 plane: (N,2) points are accepted and mean (x, y, 0)
             agree("(N,2)-input", lambda: obj.is_inside(W[:, :2].copy()), got, clear)
